@@ -139,6 +139,25 @@ def gen_cases(ctx, rng):
     return cases
 
 
+def default_first_stage(ctx, rng, binp):
+    """`ConfigFile::new` on every (default, locales) with the default at each position of lists up to length 5: the default locale
+    is first in the result (what `Locale::default()` and the no-match answer of the negotiation are)"""
+    names = ["en", "fr", "de", "it", "es"]
+    reqs, exp = [], []
+    for n in range(1, 6):
+        for d in range(n):
+            ls = names[:n]
+            dflt = ls[d]
+            reqs.append({"op": "config", "cargo_toml": manifest([("default", dflt), ("locales", ls)], "", ""), "files": []})
+            exp.append(dflt)
+    outs = run_lines_resilient(binp, reqs)
+    for q, r, d in zip(reqs, outs, exp):
+        ctx.count("default-position-cases")
+        got = r.get("ok", {}).get("locales") if isinstance(r.get("ok"), dict) else None
+        if not got or got[0] != d or r["ok"].get("default") != d:
+            report_violation(ctx, "config:default-not-first", {"case": q, "expected_by_spec": {"default": d, "first locale": d}, "implementation": r})
+
+
 def run(ctx):
     lean_check(ctx, "I18nVerif.Theorems.C19", "C19_")
     rng = ctx.rng
@@ -147,6 +166,7 @@ def run(ctx):
         finish_broken(ctx, "harness does not build")
         write_evidence(ctx, RULE)
         return
+    default_first_stage(ctx, rng, binp)
     cases = gen_cases(ctx, rng)
     corpus = [([("default", "en"), ("locales", ["fr"]), ("inherits", {"fr": "en"})], "", "")]     # F12
     cases = corpus + cases
